@@ -147,3 +147,8 @@ META = dict(
                  'next_sync / next_future / next_async preconditions: the generator is idle (_caller == NULL, no promise parked) - the documented "Generator is busy" contract of the library',
                  'drives: bounded(k <= 3 values, <= 4 consumer steps past them, one generator, one consumer coroutine, one awaited future); single thread'],
     explanation='see level_text')
+
+# units whose contracts carry the no-allocation clause of C20 (stepping a generator: yield, hand-back, the three ways to ask, iterator step)
+C20_UNITS = ['yield_value_ref', 'yield_value_rref', 'ys_await_suspend', 'ys_await_resume', 'final_suspend', 'return_void', 'unhandled_exception',
+             'next_async', 'next_sync', 'unblock_sync', 'resume_fn_sync', 'na_bool', 'na_await_ready', 'na_await_suspend', 'na_await_resume',
+             'gen_next', 'gen_value', 'it_inc', 'it_deref', 'it_postinc']
